@@ -12,8 +12,12 @@
     `read_sorted` — taken in ascending name order (the listing is sorted, whatever order it is given in).
 
   Partial by nature: the OS (`os.ReadDir` ordering, `os.WriteFile`, permissions, `time.Now`) is modelled, not verified;
-  the runs in a scratch directory validate that part.  Not proved: "successive writes reload in write order" needs
-  strictly increasing timestamps — two writes within the same second sort by name (recorded as a finding).
+  the runs in a scratch directory validate that part.  "Successive writes reload in write order" is
+  `Files.successive_writes_reload_in_order` (Proofs/FilesOrder.lean, which imports this file): for calls at strictly
+  increasing clock readings of the same width, whatever else the folder holds that the filter rejects and whatever order
+  the directory is listed in, `ReadPath` returns header + migration text of every call in call order (names that start
+  with same-width timestamps compare like the timestamps, `name_lt_of_ts_lt`; sorting a permutation of a strictly
+  increasing list gives that list).  Two writes within the same second sort by name (recorded finding; `#guard` there).
 -/
 import SqlizeModel.Impl.Files
 
